@@ -44,9 +44,9 @@ def run(v, tier, seed, replay):
     wide = [-3, -1, 0, 1, 2, 3, 4, 5, 6, 7, 9, 12]
     if tier == "quick":
         runs = [dict(dims=[2, 3, 4], ops=["rotate"], invs=["LawRotate"], npat=1, phases=res8),
-                dict(dims=[5, 6], ops=["rotate"], invs=["LawRotate"], npat=1, phases=res8, rotmode="seed", rotkeep=8),
-                dict(dims=[2, 3, 4, 5, 6], ops=["tob1", "tob0", "mixing"], invs=["LawMixing"], npat=1, nspec=8),
-                dict(dims=[2, 3, 4], ops=["wrot"], invs=["LawMixing"], npat=1, nspec=5)]
+                dict(dims=[5, 6], ops=["rotate"], invs=["LawRotate"], npat=0, phases=res8, rotmode="seed", rotkeep=12),
+                dict(dims=[2, 3, 4, 5, 6], ops=["tob1", "tob0", "mixing"], invs=["LawMixing"], npat=0, nspec=7),
+                dict(dims=[2, 3, 4], ops=["wrot"], invs=["LawMixing"], npat=0, nspec=4)]
     else:
         runs = [dict(dims=[2, 3, 4, 5, 6], ops=["rotate"], invs=["LawRotate"], npat=1, phases=res8),
                 dict(dims=[2, 3, 4, 5, 6], ops=["rotate"], invs=["LawRotate"], npat=0, phases=wide, rotmode="seed", rotkeep=5),
